@@ -542,3 +542,13 @@ Theorem C08_from_tree_u32_needed_refuted :
 Proof. exact from_tree_u32_needed. Qed.
 Print Assumptions C08_from_tree_u32_needed_refuted.
 
+
+(* `Engine::deserialize` re-read from the source (Generated.LoadGen): an accepted buffer gives
+   Wire_Model.install — the receiver's enabled tags re-applied with use_tags to the blocker of the
+   buffer — which is the function the round-trip theorems of this file speak about *)
+From Adb Require Struct_Load_Proofs.
+Theorem C08_src_accepted_load_is_install :
+  forall (build_list : list Wire_Model.rule -> bool -> Wire_Model.bucket_map) (e : Wire_Model.engine) (w : Wire_Model.wire),
+  Struct_Load_Proofs.interp_load build_list e (Some w) = Some (Wire_Model.install build_list e w, true).
+Proof. exact Struct_Load_Proofs.accepted_load_is_install. Qed.
+Print Assumptions C08_src_accepted_load_is_install.
